@@ -46,7 +46,7 @@ def gen(rng, idx, tier, seed):
     if idx % 4 == 3:
         fs = {'ioapi': gen_ioapi.gen_spec(rng)}
     else:
-        fs = {'core': gen_core.gen_filespec(rng)}
+        fs = {'core': gen_core.gen_filespec(rng, bounds_prob=0.3)}
     return {'file': fs, 'prog_seed': int(rng.integers(1 << 30)),
             'nops': int(rng.integers(1, 7)),
             # every third program of plain files mixes in the functional
